@@ -1,5 +1,5 @@
 # C05 — export followed by import reproduces every object exactly, on both transports
-import vlib, json, struct
+import re, vlib, json, struct
 import codecgen as G
 LEVEL = 'proof'
 
@@ -77,8 +77,10 @@ def run(ctx):
         b = bytes_of.get((code, tr, tuple(f)))
         if b is None: continue
         il2.append('cimp %d %d %s %d %s' % (code, tr, ' '.join(map(str, c)), len(b), ' '.join(b))); meta2.append((code, tr, f, c, b))
+        if tr == 1:   # the same bytes through the C++-stream API over a stream buffer that refills piecewise (transport 2)
+            il2.append('cimp %d 2 %s %d %s' % (code, ' '.join(map(str, c)), len(b), ' '.join(b))); meta2.append((code, 2, f, c, b))
     io2 = vlib.run_lines(exe, il2, timeout=1200)
-    mo2 = vlib.run_model(il2, 'fast')
+    mo2 = vlib.run_model([re.sub(r'^cimp (\d+) 2 ', r'cimp \1 1 ', l) for l in il2], 'fast')
     re_l = []; re_meta = []
     for (code, tr, f, c, b), o, m in zip(meta2, io2, mo2):
         ctx.count(('imp', code, tr, tuple(f)))
@@ -95,7 +97,7 @@ def run(ctx):
             ctx.soft('correspondence:import-%s' % G.NAMES[code], 'import of %s (transport %d): implementation and model differ' % (G.NAMES[code], tr), {'type': G.NAMES[code], 'impl': o[:2000], 'model': m[:2000]})
         # re-export the imported object: identical bytes
         f2 = f[:{2: 1, 5: 2, 8: 3}.get(code, 0)] + got[4:]
-        re_l.append('cexp %d %d %s' % (code, tr, ' '.join(map(str, f2)))); re_meta.append((code, tr, b))
+        re_l.append('cexp %d %d %s' % (code, min(tr, 1), ' '.join(map(str, f2)))); re_meta.append((code, tr, b))
     for (code, tr, b), o in zip(re_meta, vlib.run_lines(exe, re_l, timeout=1200)):
         ctx.count(('reexp', code, tr, tuple(b[:50])))
         if o.split() != b: ctx.report('reexport-%s' % G.NAMES[code], 're-exporting the imported %s does not give identical bytes (first difference at byte %d)' % (G.NAMES[code], first_diff(o.split(), b)), {'type': G.NAMES[code], 'transport': tr})
